@@ -29,7 +29,7 @@ func init() {
 			if tier == "thorough" {
 				return 300000
 			}
-			return 3000
+			return 2000
 		},
 		WallBudget: func(tier string) time.Duration {
 			if tier == "thorough" {
